@@ -240,6 +240,22 @@ theorem runNew_refines (D : CipherDeps E R key nonce At) (M : MacDeps) (ops : Li
   obtain ⟨st', hr, _⟩ := run_refines D M ops (.aad, c) _ a' outs hrel h hb
   simp [runNew, hnew, hr]
 
+/-- conversely, what the abstract machine refuses the model refuses (no state needed): a call that is ill-typed for
+    the phase, an output buffer of another length (`assert_eq!` panic), a tag that is not 16 bytes -/
+theorem step_refuses (E : ChaCha.Engine σ) (R : Nat) (key nonce : Bytes) (st : Phase × Context σ) (a : AbsSt) (op : Op)
+    (hph : st.1 = a.phase) (h : absStep R key nonce a op = none) : ∃ e, step E R st op = .error e := by
+  obtain ⟨ph, aad, ct⟩ := a
+  obtain ⟨sph, c⟩ := st
+  simp only at hph
+  subst hph
+  cases sph <;> cases op <;> simp only [absStep] at h <;> try (cases h; done)
+  all_goals first
+    | exact ⟨_, rfl⟩
+    | (split at h
+       · cases h
+       · rename_i hn
+         simp [step, ContextEncryption.encrypt, ContextDecryption.decrypt, ContextDecryption.finalize, hn])
+
 end hist
 
 /-! ## the abstract machine on structured programs -/
